@@ -6,8 +6,10 @@ run():  translator (gen_lex_tables) -> ck.prove() (Props/C17.v) -> for each stre
   (S) the direct property oracle on the implementation alone: spans in bounds / on char boundaries /
       ordered / disjoint / gaps inline whitespace only / every token's slice re-lexes to that token;
       rejected input reports >= 1 error.
-Streams: hand-picked corpus; exhaustive strings over the lexical alphabet (length <= 3 quick, <= 4 thorough,
-plus a seeded sample of the next length); seeded random strings (noise, token soup up to ~200 chars, mutated soup).
+Streams: hand-picked corpus; exhaustive strings over the lexical alphabet (length <= 3; thorough tier: also all of
+length 4 when the measured rate allows it within ~15 min, else a recorded sample), a seeded sample of the next
+length; seeded random strings (noise, token soup up to ~200 chars, mutated soup).
+`./check C17 --replay <file>` re-runs both comparisons on the `src` of a recorded replay.
 """
 import json
 import os
